@@ -31,7 +31,7 @@ def main():
             if r.returncode != 0 or "govc: load" in (r.stdout + r.stderr):
                 print("ERROR %s: verifier did not run on the patched copy: %s" % (e["patch"], (r.stdout + r.stderr).strip()[-200:])); skipped += 1
                 continue
-            hits = [l for l in r.stdout.splitlines() if l.strip().startswith("FAIL") and e["expect"] in l]
+            hits = [l for l in r.stdout.splitlines() if (l.strip().startswith("FAIL") or l.strip().startswith("ERROR")) and e["expect"] in l]
             ran += 1
             if hits:
                 print("ok   %s caught: %s" % (e["patch"], hits[0].strip()[:150]))
